@@ -6,10 +6,18 @@ func init() {
 	addVariants(
 		variant{Name: "c10-scope-sub-unguarded(F7)", Props: []string{"C10"}, Expect: []string{"C10.scope-guard|(*db.DataReader).EcsLocation|sub96"},
 			Edits: []edit{{loc, "\t\t\tif ecs.SourceScope >= 96 {\n\t\t\t\tecs.SourceScope -= 96\n\t\t\t} else {\n\t\t\t\t// not an IPv4 subnet: it says nothing about the client's family\n\t\t\t\tecs.SourceScope = 0\n\t\t\t}\n", "\t\t\tecs.SourceScope -= 96\n"}}},
+		variant{Name: "c10-scope-by-lookup-family(seed c10b)", Props: []string{"C10"}, Expect: []string{"C10.scope-family|(*db.DataReader).EcsLocation|scope-store"},
+			Edits: []edit{{"db/location.go", "\t\tecs.SourceScope = loc.Mask\n\t\tif ecs.Family == 1 {", "\t\tecs.SourceScope = loc.Mask\n\t\tif family == 1 {"}}},
+		variant{Name: "c10-default-scope-by-lookup-family", Props: []string{"C10"}, Expect: []string{"C10.scope-family|(*db.DataReader).EcsLocation|scope-store"},
+			Edits: []edit{{"db/location.go", "\t\tecs.SourceScope = 24\n\t\tif ecs.Family == 2 {", "\t\tecs.SourceScope = 24\n\t\tif family == 2 {"}}},
+		variant{Name: "c10-cache-stores-alias(seed c10a)", Props: []string{"C10"}, Expect: []string{"C10.cache-isolation|(*dnsserver.FBDNSDB).ServeDNSWithRCODE|add#0|stores-a-copy"},
+			Edits: []edit{{"dnsserver/handler.go", "\t\t\th.cacheAdd(generation, cacheKey, cacheEntry{expiration: timeout, response: a.Copy()})\n\t\t} else if", "\t\t\th.cacheAdd(generation, cacheKey, cacheEntry{expiration: timeout, response: a})\n\t\t} else if"}}},
+		variant{Name: "c10-scope-family-local-copy(benign)", Benign: true, Props: []string{"C10"},
+			Edits: []edit{{"db/location.go", "\t\tecs.SourceScope = loc.Mask\n\t\tif ecs.Family == 1 {", "\t\tecs.SourceScope = loc.Mask\n\t\tif echoed := ecs.Family; echoed == 1 {"}}},
 		variant{Name: "c10-netmask-rewritten", Props: []string{"C10"}, Expect: []string{"C10.readonly|(*db.DataReader).EcsLocation|store:SourceNetmask"},
 			Edits: []edit{{loc, "\tif loc.LocID != [2]byte{0, 0} {\n\t\tecs.SourceScope = loc.Mask\n", "\tif loc.LocID != [2]byte{0, 0} {\n\t\tecs.SourceNetmask = uint8(bits)\n\t\tecs.SourceScope = loc.Mask\n"}}},
 		variant{Name: "c10-address-masked-in-place", Props: []string{"C10"}, Expect: []string{"C10.readonly|(*db.DataReader).EcsLocation|store:Address"},
-			Edits: []edit{{loc, "\tipnet := net.IPNet{IP: ecs.Address, Mask: mask}\n\n\tloc, err := r.findLocation(q, []byte{0, '8'}, &ipnet)", "\tecs.Address = ecs.Address.Mask(mask)\n\tipnet := net.IPNet{IP: ecs.Address, Mask: mask}\n\n\tloc, err := r.findLocation(q, []byte{0, '8'}, &ipnet)"}}},
+			Edits: []edit{{loc, "\tipnet := net.IPNet{IP: address, Mask: mask}\n\n\tloc, err := r.findLocation(q, []byte{0, '8'}, &ipnet)", "\tecs.Address = address.Mask(mask)\n\tipnet := net.IPNet{IP: ecs.Address, Mask: mask}\n\n\tloc, err := r.findLocation(q, []byte{0, '8'}, &ipnet)"}}},
 		variant{Name: "c10-default-scope-32", Props: []string{"C10"}, Expect: []string{"C10.defaults|(*db.DataReader).EcsLocation|const-scope:32"},
 			Edits: []edit{{loc, "\t\tecs.SourceScope = 24\n", "\t\tecs.SourceScope = 32\n"}}},
 		variant{Name: "c10-resolver-fallback-inverted", Props: []string{"C10"}, Expect: []string{"C10.fallback|(*db.DataReader).FindLocation|resolver-iff-no-ecs-location"},
